@@ -43,7 +43,7 @@ def scenarios(n, kind):
     return out
 
 
-@rule("C02.call-pairing", props=["C02", "C08", "C10", "C12", "C13", "C05", "C07"], min_instances=30, mutants=[
+@rule("C02.call-pairing", props=["C02", "C08", "C10", "C12", "C13", "C05", "C07", "C04"], min_instances=30, mutants=[
     ("a unary operator returns an operand without blades as it is", ("operator_dict", "    def __call__(self, mv):\n        keys_out, func = self[mv.keys()]", "    def __call__(self, mv):\n        if not mv.keys():\n            return mv\n        keys_out, func = self[mv.keys()]")),
     ("binary lookup with swapped key tuples", ("operator_dict", "        keys_out, func = self[mv1.keys(), mv2.keys()]", "        keys_out, func = self[mv2.keys(), mv1.keys()]")),
     ("unary wrapper path calls the unwrapped function of another name", ("operator_dict", "            values_out = self.algebra.numspace[func.__name__](mv.values())", "            values_out = self.algebra.numspace['OTHER'](mv.values())")),
@@ -371,3 +371,72 @@ def issymbolic(ctx):
         else:
             ctx.violation(c, f"issymbolic of coefficients ({label}) is {got!r}, expected {want}: symbolic operands would be "
                              f"sent down the numeric path (no zero filter, wrapped function) or vice versa", fn)
+
+
+# --------------------------------------------------------------------------- the printer of generated functions
+@rule("C12.reciprocal-print", props=["C12", "C16", "C07"], min_instances=1, mutants=[
+    ("base and exponent of a reciprocal are printed side by side", ("codegen", "            return f'(1/({self._print(1 / expr)}))'", "            return f'(1/({self._print(expr.base)}**{-expr.exp}))'")),
+    ("the reciprocal loses its exponent", ("codegen", "            return f'(1/({self._print(1 / expr)}))'", "            return f'(1/({self._print(expr.base)}))'")),
+])
+def reciprocal_print(ctx):
+    """The package's own printer method for powers (a subclass of sympy's printer; sympy's own printing is trusted to bracket): the text
+    it returns for base**(-n) must MEAN 1/base**n when the text of the base is a sum - evaluated here with exact fractions for the
+    symbols.  (The rule applies only while the package defines such a method.)"""
+    from fractions import Fraction
+    repo = ctx.repo
+    q = "codegen.ReciprocalLambdaPrinter._print_Pow"
+    if not repo.has(q):
+        ctx.ok("codegen#no printer method for powers of its own", None, module="codegen")
+        return
+    fn = ctx.func(q)
+    env = {"a": Fraction(2), "b": Fraction(3)}
+
+    def expr(text, value, kind="expr", **extra):
+        o = Obj(kind, dict({"fmt": text, "value": value}, **extra))
+
+        def binop(op, other, refl):
+            if op == "Div" and refl and other == 1:
+                return inverse_of[id(o)]
+            return Unk("sympy arithmetic")
+        o.methods["binop"] = binop
+        return o
+
+    def integer(n):
+        o = Obj("Integer", {"fmt": str(n), "is_Integer": True, "is_negative": n < 0, "is_positive": n > 0, "value": n, "p": n})
+        o.methods["unop"] = lambda op: integer(-n) if op == "USub" else o
+        o.methods["compare"] = lambda op, other: {"Eq": n == other, "NotEq": n != other, "Lt": n < other, "Gt": n > other, "LtE": n <= other, "GtE": n >= other}[op] \
+            if isinstance(other, int) else Unk("cmp")
+        o.methods["__index__"] = lambda: n
+        return o
+    inverse_of = {}
+    for base_text, base_val in (("a + b", Fraction(5)), ("a", Fraction(2)), ("a*b", Fraction(6))):
+        for n in (1, 2, 3):
+            c = f"{q}#({base_text})**(-{n})"
+            base = expr(base_text, base_val)
+            bracket = base_text if base_text.isidentifier() else f"({base_text})"
+            pw = expr(f"{bracket}**(-{n})", 1 / base_val ** n, "Pow", base=base, exp=integer(-n))
+            inv = expr(bracket if n == 1 else f"{bracket}**{n}", base_val ** n, "Pow" if n > 1 else "expr", base=base, exp=integer(n))
+            inverse_of[id(pw)] = inv
+            me = Obj("ReciprocalLambdaPrinter", {}, {
+                "_print": lambda e, *a, **k: str(e) if isinstance(e, Obj) else repr(e),
+                "_print_Pow": lambda e, *a, **k: str(e),          # sympy's own method (trusted): bracketed text
+                "doprint": lambda e, *a, **k: str(e), "parenthesize": lambda e, *a, **k: f"({e})"})
+            it = make_interp(repo)
+            it.instance_classes["ReciprocalLambdaPrinter"] = "codegen.ReciprocalLambdaPrinter"
+            try:
+                out = it.run(q, [me, pw])
+            except NoValue as exc:
+                raise Unknown(c, str(exc), fn)
+            if out[0] == "raise" or not isinstance(out[1], str):
+                raise Unknown(c, f"prints {out!r}", fn)
+            try:
+                got = eval(compile(ast.parse(out[1], mode="eval"), "<printed>", "eval"), {"__builtins__": {}}, dict(env))
+            except Exception as exc:        # noqa: BLE001 - any failure of the printed text is the finding
+                ctx.violation(c, f"the text printed for ({base_text})**(-{n}) is {out[1]!r}, which does not evaluate ({type(exc).__name__})", fn)
+                continue
+            want = 1 / base_val ** n
+            if got == want:
+                ctx.ok(c, fn, printed=out[1])
+            else:
+                ctx.violation(c, f"the text printed for ({base_text})**(-{n}) is {out[1]!r}: with a = 2, b = 3 it evaluates to {got}, the power is {want} "
+                                 f"- the base is printed without its brackets, so the generated function computes another expression", fn)
